@@ -107,6 +107,35 @@ prop("C12", "Diff-based reports reconstruct the formatted text exactly", "explor
      statement_clauses={"U15": "the chunks of the modified-lines report applied to the original yield the formatted text line for line ... A report is empty exactly when the two texts have the same lines"},
      assumptions=["diff::lines yields a correct edit script (dependency, trusted)", "serde_json produces well-formed JSON", "a text is its lines joined by \\n; the empty text has no line"])
 
+prop("C08", "Emitted text obeys the whitespace and newline discipline", "other",
+     ["U08", "U07", "U09", "U06", {"unit": "U04", "only": r"^format_lines: trailing newline"}],
+     [{"clause": "all line terminators follow newline_style (Unix: no CRLF; Windows: every LF preceded by CR; Auto: style of the first terminator of the input; Native = Unix here); converting changes nothing but the terminators; conversions idempotent", "status": "bounded", "by": "U08 (native, all strings <= 6/8 over {a,CR,LF} x 4 styles x raw inputs <= 3/4)"},
+      {"clause": "ends with exactly one line terminator: append_newline appends one LF; format_lines truncates a trailing newline run to one", "status": "bounded", "by": "U08 + U04"},
+      {"clause": "newline_count equals the length of the trailing newline run for texts of any length (fold invariant)", "status": "proved", "by": "U03 (Verus, see C07)"},
+      {"clause": "never more than blank_lines_upper_bound blank lines pushed between items/statements; at least lower_bound; line_number bookkeeping; idempotent", "status": "bounded", "by": "U09 (native; buffers x counts 0..8 x bounds 0..4)"},
+      {"clause": "indentation text: spaces only (hard_tabs off) or block_indent/tab_spaces tabs followed by alignment spaces (hard_tabs on); the 80-column static-buffer seam", "status": "bounded", "by": "U07 (native, exhaustive to 200/400 columns, tab_spaces 1..8)"},
+      {"clause": "Indent built by from_width/block_indent/block_unindent keeps block_indent a multiple of tab_spaces and width() as requested", "status": "proved", "by": "U06 (Verus all usize; Kani for the mut-self fns)"},
+      {"clause": "does not start with a blank line; at most one blank line inside lists; every emitter of indentation goes through Indent::to_string", "status": "not_decided", "by": "-"}],
+     "Mixture of proved arithmetic (U06/U03) and bounded-exhaustive checks of the string-producing functions (newline conversion, indentation text, vertical-space clamp), which no deductive back end here can execute symbolically.",
+     statement_clauses={"U08": "all of its line terminators follow newline_style ..., and converting the style changes nothing but the terminators", "U09": "there are never more than blank_lines_upper_bound blank lines",
+                        "U07": "every line is indented with spaces only (hard_tabs off) or with tabs followed only by alignment spaces (hard_tabs on)", "U06": "indentation arithmetic", "U04": "the emitted text ends with exactly one line terminator"},
+     assumptions=["U08 precondition: no CR immediately before CRLF in the formatted buffer (the pipeline strips bare CRs earlier)", "FmtVisitor is a shim {buffer, line_number, config}"])
+
+prop("C14", "Configuration is resolved with the documented precedence", "other",
+     ["U19"],
+     [{"clause": "unset options take the defaults of the effective style edition: style_edition, else legacy version, else edition", "status": "proved", "by": "U19 (Kani, complete)"},
+      {"clause": "an explicitly set width option is clamped to max_width, an unset one takes the heuristic; Max => equal to max_width; Off => the null table", "status": "proved", "by": "U19 (Kani, complete over all usize)"},
+      {"clause": "Default heuristics never exceed max_width for 70 <= max_width <= 10000 (f32 rounding bit-precise)", "status": "proved", "by": "U19 (Kani, stated range)"},
+      {"clause": "width limits derived from use_small_heuristics never exceed max_width — literally, for every max_width and mode", "status": "bounded", "by": "U19 native — KNOWN FINDING F3 (Off; Default with max_width < 70)"},
+      {"clause": "deprecated aliases map to their successors (only when the successor is unset)", "status": "proved", "by": "U19 (Kani, complete)"},
+      {"clause": "--config-path replaces discovery wholesale; else the nearest file; else defaults; command-line overrides applied after the file", "status": "bounded", "by": "U19 native (complete enumeration of the decision domain, loaders shimmed)"},
+      {"clause": "the dotted name wins in the same directory", "status": "bounded", "by": "U19 native (real file system, 9 presence patterns)"},
+      {"clause": "directory walk / home / user-config lookup; same value same effect from file, flag or API for every option (macro-generated per-option code); --print-config round trip (serde/toml)", "status": "not_decided", "by": "-"}],
+     "Loop-free precedence and clamping code is proved with Kani on the extracted text of the create_config! helper functions (they use no macro metavariable, so they can be sliced out of the macro body verbatim). "
+     "The loader orchestration is enumerated natively with recording stand-ins for the TOML half. The per-option macro code ($i metavariables) is not extractable and not decided.",
+     statement_clauses={"U19": "with `--config key=val` and dedicated flags overriding any file, and with unset options taking the defaults of the effective style edition (style_edition, else legacy version, else edition) ... deprecated aliases map to their successors; width limits derived from use_small_heuristics never exceed max_width"},
+     assumptions=["Config is a shim carrying the option triples the extracted functions touch", "Config::from_toml_path / from_resolved_toml_path / config_path are recording stand-ins in the native part"])
+
 # ------------------------------------------------------------------ MANIFEST texts
 T_V = "contract-based deductive verification: Verus on mechanically extracted real functions"
 T_K = "contract-based verification: Kani harnesses over full-domain symbolic inputs on extracted loop-free real functions (complete)"
@@ -118,6 +147,10 @@ MANIFEST_TEXT = {
             "note": "Kani/CBMC, extractor; FS model; frame scan assumes FS mutation is only reachable through the scanned std names", "technique": T_K + " + " + T_B + " + frame scan"},
     "C07": {"text": "The C07 sentence is transcribed as a spec function; Verus proves the verbatim FormatLines step functions against it and the fold for texts of unbounded length, all usize configurations (tab_spaces >= 1). The real iterate/CharClasses/is_skipped_line/track_errors are tied to the same spec bounded-exhaustively.",
             "note": "Verus/Z3, extractor; 10-line driver loop restated (CharClasses is outside Verus); contains_line and is_skipped_line assumed in V and checked in B; char kinds taken from CharClasses", "technique": T_V + " + " + T_B},
+    "C08": {"text": "Newline-style conversion, indentation text and the blank-line clamp are checked bounded-exhaustively on the real text (stated bounds); Indent/Shape arithmetic invariants are proved (Verus/Kani). List-internal blank lines and the leading-blank-line clause are not decided.",
+            "note": "FmtVisitor/Config shims; precondition no CR before CRLF; string-walking code is outside Verus/Kani (measured)", "technique": T_B + " + " + T_V},
+    "C14": {"text": "Default-selection precedence, width clamping, Max/Off tables and deprecated-alias mapping proved with Kani on the verbatim create_config! helper functions; loader orchestration and file-name preference enumerated natively. Literal clause 'heuristic widths never exceed max_width' is a recorded known finding (F3).",
+            "note": "Config shim; TOML loaders are recording stand-ins; per-option macro code and directory walk not decided", "technique": T_K + " + " + T_B},
     "C12": {"text": "The property's own exhaustive quantifier (all pairs of line sequences <= 5 over {\"\",a,b}, final newline y/n, context 0..3) is enumerated completely on the real diff/report code with independent oracles (apply-chunks, re-parse, line-number consistency, XML/JSON well-formedness). Bounded stand-in: no deductive back end reaches this String/iterator code.",
             "note": "diff crate and serde_json trusted; Config shim (color, verbose); two recorded known findings for the checkstyle report", "technique": T_B},
     "C15": {"text": "Only the inter-file session state is within reach: ReportedErrors::add is a field-wise OR, exit status of a multi-file run is the max of the single statuses, override_config restores the config — all proved by Kani over fully symbolic inputs (loop-free, complete). Determinism of the formatter proper is not decided.",
